@@ -173,6 +173,8 @@ impl FeoxStore {
                             .as_ref()
                             .filter(|_| !self.memory_only)
                             .map(|_| Arc::clone(&new_record));
+                        #[cfg(feoxdb_verif)]
+                        crate::verif::emit("pub", key, timestamp, ttl_expiry, 1);
                         let entry_guard = entry.insert_entry(Arc::clone(&new_record));
                         self.insert_into_tree(key_vec.clone(), new_record);
                         self.observe_published_timestamp(
@@ -257,6 +259,8 @@ impl FeoxStore {
                     let old_expiry = old_record.ttl_expiry.load(Ordering::Acquire);
                     let new_expiry = record.ttl_expiry.load(Ordering::Acquire);
 
+                    #[cfg(feoxdb_verif)]
+                    crate::verif::emit("pub", key, timestamp, new_expiry, 2);
                     old_record.link_successor(&record);
                     old_record.refcount.store(0, Ordering::Release);
                     entry.insert(Arc::clone(&record));
@@ -337,6 +341,8 @@ impl FeoxStore {
                     .as_ref()
                     .filter(|_| !self.memory_only)
                     .map(|_| Arc::clone(&record));
+                #[cfg(feoxdb_verif)]
+                crate::verif::emit("pub", key, timestamp, 0, 1);
                 let entry_guard = entry.insert_entry(Arc::clone(&record));
 
                 self.insert_into_tree(key_vec, record);
@@ -565,6 +571,8 @@ impl FeoxStore {
                     Arc::new(Record::new(key.to_vec(), new_value.to_vec(), timestamp))
                 };
 
+                #[cfg(feoxdb_verif)]
+                crate::verif::emit("pub", key, timestamp, new_record.ttl_expiry.load(Ordering::Acquire), 2);
                 old_record_arc.link_successor(&new_record);
                 old_record_arc.refcount.store(0, Ordering::Release);
                 entry.insert(Arc::clone(&new_record));
